@@ -301,8 +301,13 @@ func nonLocalWrites(f *core.Func) []ast.Node {
 	return out
 }
 
+// isParamOf: v is a parameter or named result of f (not the receiver).
 func isParamOf(f *core.Func, v *types.Var) bool {
-	return f.Type != nil && v.Pos() >= f.Type.Pos() && v.Pos() < f.Type.End()
+	if f.Type == nil || v == nil {
+		return false
+	}
+	in := func(fl *ast.FieldList) bool { return fl != nil && v.Pos() >= fl.Pos() && v.Pos() < fl.End() }
+	return in(f.Type.Params) || in(f.Type.Results)
 }
 
 func c20R2(p *core.Program, r *core.Report) {
